@@ -242,6 +242,18 @@ def build_problem(cuqi, meta):
         model = cuqi.model.LinearModel(lambda x: np.matmul(A, x, out=fb), lambda y: np.matmul(A.T, y, out=ab),
                                        range_geometry=rg if rg is not None else m,
                                        domain_geometry=dg if dg is not None else n)
+    elif form == "func_strided":  # callables returning NON-contiguous results (strided views of larger work arrays, Fortran columns)
+        wf, wa = np.zeros(2 * m), np.asfortranarray(np.zeros((A.shape[1], 2)))
+        def fwd_s(x):
+            wf[::2] = A @ x
+            return wf[::2]
+        def adj_s(y):
+            wa[:, 1] = A.T @ y
+            return wa[:, 1]
+        model = cuqi.model.LinearModel(fwd_s, adj_s, range_geometry=rg if rg is not None else m, domain_geometry=dg if dg is not None else n)
+    elif form == "general_buf":   # general Model whose forward and gradient fill and return the SAME arrays on every call
+        gf, gg = np.zeros(m), np.zeros(A.shape[1])
+        model = cuqi.model.Model(lambda x: np.matmul(A, x, out=gf), m, n, gradient=lambda direction, wrt: np.matmul(A.T, direction, out=gg))
     elif form == "general":      # not a LinearModel: the closed-form branch must not be taken
         model = cuqi.model.Model(lambda x: A @ x, m, n, gradient=lambda direction, wrt: A.T @ direction)
     else:
@@ -261,11 +273,12 @@ def build_problem(cuqi, meta):
         elif mst == "cuqiarray":
             mv = cuqi.array.CUQIarray(mv, geometry=dg if dg is not None else cuqi.geometry._DefaultGeometry1D(len(mv)))
         x = build_gaussian(cuqi, mv, meta["cx"], geometry=dg)
-    if form == "general":
+    x.name = meta.get("names", ["x", "y"])[0]         # before the likelihood is built: its conditioning variable takes this name
+    if form in ("general", "general_buf"):
         y = build_gaussian(cuqi, model(x), meta["ce"])
     else:
         y = build_gaussian(cuqi, model @ x, meta["ce"])
-    x.name, y.name = "x", "y"      # names are otherwise inferred from the caller's stack
+    x.name, y.name = meta.get("names", ["x", "y"])      # names are otherwise inferred from the caller's stack
     bv = np.array(meta["b"], dtype=float)
     if meta.get("dt") in ("int", "intcov"):
         bv = bv.astype(np.int64)
@@ -278,9 +291,9 @@ def build_problem(cuqi, meta):
     elif meta.get("data_style") == "cuqiarray":
         bv = cuqi.array.CUQIarray(bv, geometry=model.range_geometry)
     if meta.get("data_style") == "ctor":
-        BP = cuqi.problem.BayesianProblem(y, x, y=bv)           # data handed to the constructor instead of set_data
+        BP = cuqi.problem.BayesianProblem(y, x, **{y.name: bv})           # data handed to the constructor instead of set_data
     else:
-        BP = cuqi.problem.BayesianProblem(y, x).set_data(y=bv)
+        BP = cuqi.problem.BayesianProblem(y, x).set_data(**{y.name: bv})
     computed = {}
     if geom in NONID:
         # the true parameter-to-parameter map, written down independently of the model object under test
@@ -428,7 +441,7 @@ def run_map(cuqi, meta):
                 new_mean = [float(v) + 1.0 + i for i, v in enumerate(meta["mean"]["val"])]
                 orig_prior = BP.prior
                 newp = build_gaussian(cuqi, np.array(new_mean), meta["cx"], geometry=BP.prior.geometry)
-                newp.name = "x"
+                newp.name = BP.prior.name
                 BP.prior = newp
                 try:
                     r3 = quiet(BP.MAP)
@@ -551,6 +564,12 @@ def known_witnesses(ctx):
         out[SIG_NONLIN] = (bool(bad), bad or "witness: the closed form is refused or is a maximiser")
     except Exception as e:
         out[SIG_NONLIN] = (False, "witness call now fails: %r" % (e,))
+    try:
+        st, same_lik, data_same, map_same, m1, m2 = sprior_observe(cuqi, WITNESS_SPRIOR)
+        bad = not (same_lik and data_same and map_same)
+        out[SIG_SPRIOR] = (bad, "after sample_prior() MAP() changed from %s to %s (likelihood object kept: %s)" % (m1, m2, same_lik) if bad else "witness: problem unchanged by sample_prior()")
+    except Exception as e:
+        out[SIG_SPRIOR] = (False, "witness call now fails: %r" % (e,))
     # non-smooth prior: the maximiser of the witness posterior is (0, 0); MAP() returns normally with another point
     try:
         BP = build_classes(cuqi, WITNESS_NONSMOOTH)
@@ -718,7 +737,7 @@ def lattice_map(ctx):
     # 8. callables writing into persistent buffers; repeated use of one problem (history)
     for ke, kx in [("matrix", "matrix"), ("scalar", "vector"), ("vector", "scalar")]:
         for (m, n) in [(2, 3), (3, 3), (3, 2)]:
-            for model in ("func_buf", "dense", "func", "sparse"):
+            for model in ("func_buf", "func_strided", "dense", "func", "sparse"):
                 cells.append(dict(m=m, n=n, ke=ke, kx=kx, pe="cov", px="cov", model=model, geom="default", mean="vec", history=True))
     # 9. magnitude sweep (dyadic factors; compared relative to the largest component): data scale t (b, x0 by t, covariances
     #    by t^2) and model scale t (A by t, prior covariance by t^-2, prior mean by 1/t)
@@ -755,6 +774,19 @@ def lattice_map(ctx):
     # 14. scipy-sparse covariance with ONE stored entry (1x1): np.size == 1 -> C.ravel() -> AttributeError (a refusal)
     for (m, n, ke, kx) in [(1, 2, "sparse", "scalar"), (1, 1, "sparse", "matrix"), (2, 1, "matrix", "sparse"), (1, 1, "sparse", "sparse"), (1, 3, "sparse", "vector")]:
         cells.append(dict(m=m, n=n, ke=ke, kx=kx, pe="cov", px="cov", model="dense", geom="default", mean="vec", single=True))
+    # 15. names: the unknown / the data variable named like attributes and arguments of the code (mean, cov, x0, data, b, prec)
+    for xn, yn in [("mean", "y"), ("x0", "b"), ("prec", "y"), ("sqrtprec", "cov_e"), ("data", "mean_y"), ("disp", "Ns")]:   # (an unknown named `cov` collides with the attribute of the cov-parameterised data distribution at conditioning: raises, C01)
+        for (m, n) in [(2, 3), (3, 2)]:
+            cells.append(dict(m=m, n=n, ke="matrix", kx="vector", pe="cov", px="cov", model="dense", geom="default", mean="vec", names=(xn, yn)))
+    # 16. exact zeros inside otherwise generic data: initial guess / prior mean / data with SOME zero components
+    for (m, n) in [(2, 3), (3, 3), (3, 2)]:
+        cells.append(dict(m=m, n=n, ke="matrix", kx="matrix", pe="cov", px="cov", model="dense", geom="default", mean="vec", x0arg="mixed", disp=True, zeros=True))
+        cells.append(dict(m=m, n=n, ke="vector", kx="scalar", pe="cov", px="cov", model="func", geom="default", mean="vec", zeros=True))
+    # 17. large common offsets of data and prior mean (the estimate moves with them; compared relative to the largest component)
+    for k in (16, 24):
+        for ke, kx in [("matrix", "matrix"), ("scalar", "vector")]:
+            for (m, n) in [(3, 3), (3, 2)]:
+                cells.append(dict(m=m, n=n, ke=ke, kx=kx, pe="cov", px="cov", model="dense", geom="default", mean="vec", offset=k))
     # 6. matrix model + non-identity geometry (finding ..|matrix-model+nonidentity-geometry; step_mat is a refusal)
     for geom in NONID:
         for (m, n) in [(2, 3), (3, 3), (3, 2)]:
@@ -844,6 +876,17 @@ def instantiate(rng, c, op="map"):
                 if not well_conditioned(meta, np.array(meta["A"], dtype=float), m, n):
                     continue
                 meta["dt"] = c["dt"]
+            if c.get("names"):
+                meta["names"] = list(c["names"])
+            if c.get("zeros"):
+                meta["b"][0] = 0.0
+                meta["mean"]["val"] = [0.0 if i % 2 == 0 else (v if v else 1.5) for i, v in enumerate(meta["mean"]["val"])]
+            if c.get("offset"):
+                # x -> x + t 1 in the parameters: prior mean + t, data + t A 1 : the estimate is the old one + t (checked exactly by the oracle)
+                t = 2.0 ** c["offset"]
+                meta["mean"]["val"] = [v + t for v in meta["mean"]["val"]]
+                meta["b"] = (np.array(meta["b"]) + t * np.array(meta["A"]).sum(axis=1)).tolist()
+                meta["scale"] = ["offset", c["offset"]]
             if c.get("falsy") == "b":
                 meta["b"] = [0.0] * m
                 if not any(meta["mean"]["val"]):
@@ -852,6 +895,8 @@ def instantiate(rng, c, op="map"):
                 xs = c["x0arg"]
                 pm = [float(v) for v in meta["mean"]["val"]] if meta["mean"]["kind"] == "vec" else [float(meta["mean"]["val"])] * n
                 val = {"prior": pm, "zeros": [0.0] * n, "scalar": 0.0 if c.get("falsy") == "x0" else dy(rng) + 0.25}.get(xs)
+                if xs == "mixed":
+                    val = [0.0 if i % 2 == 1 else v + dy(rng, 1, 3) for i, v in enumerate(pm)]
                 if val is None:
                     val = [v + dy(rng, 1, 3) for v in pm]           # differs from the prior mean in every component
                 meta["x0arg"] = {"style": xs if xs in ("scalar", "list", "cuqiarray") else "ndarray", "val": val, "rel": xs}
@@ -892,6 +937,12 @@ def cell_name(c, op):
         extra += "/x0:%s,disp:%s" % (c["x0arg"], c["disp"])
     if c.get("fac"):
         extra += "/factor:" + c["fac"]
+    if c.get("names"):
+        extra += "/names:%s,%s" % tuple(c["names"])
+    if c.get("zeros"):
+        extra += "/some-exact-zeros"
+    if c.get("offset"):
+        extra += "/offset:2^%d" % c["offset"]
     if c.get("single"):
         extra += "/single-entry-sparse"
     if c.get("dt"):
@@ -1017,27 +1068,41 @@ def run_sample(cuqi, meta):
             return zs[min(len([c for c in calls if c[0] == "randn"]) - 1, len(zs) - 1)].copy()
         return None
     cb = []
+    kept = []          # the very objects handed to the callback, NOT copied: re-read after the run (aliasing over time)
     out = {"computed": computed, "A_eff": A_eff, "m": m, "n": n, "BP": BP}
     try:
         sargs = dict(meta.get("sargs") or {})
         entry = sargs.pop("entry", "sample_posterior")
+        Ns_run = Ns
         with ScriptedRandom(seed=1, script=script):
             if entry == "UQ":       # UQ = sample_posterior + plots: must hand back the very samples of the direct route
                 import matplotlib.pyplot as plt
                 try:
-                    S = quiet(BP.UQ, Ns=Ns, **sargs)
+                    if sargs.pop("defaults", False):        # the shipped defaults: Ns=1000, Nb=None, percent=95
+                        S = quiet(BP.UQ)
+                        Ns_run = 1000
+                    else:
+                        S = quiet(BP.UQ, Ns=Ns, **sargs)
                 finally:
                     plt.close("all")
             else:
-                S = quiet(BP.sample_posterior, Ns, callback=lambda s, i: cb.append((s.copy(), i)), **sargs)
+                def user_cb(s_, i_):
+                    cb.append((s_.copy(), i_))
+                    kept.append(s_)
+                S = quiet(BP.sample_posterior, Ns, callback=user_cb, **sargs)
         X = np.array(S.samples, dtype=float)
         if not np.all(np.isfinite(X)):
             raise FloatingPointError("non-finite draws")
+        tail_ok = True
+        if Ns_run > Ns and X.shape == (n, Ns_run):          # every later draw repeats the last scripted normal
+            tail_ok = bool(np.all(X[:, Ns:] == X[:, [Ns - 1]]))
+            X = X[:, :Ns]
         out["samples"] = X
-        out["flags"] = bool(X.shape == (n, Ns) and S.geometry is BP.model.domain_geometry
-                            and [c for c in calls] == [("randn", (n,))] * Ns
+        out["flags"] = bool(X.shape == (n, Ns) and tail_ok and S.geometry is BP.model.domain_geometry
+                            and [c for c in calls] == [("randn", (n,))] * Ns_run
                             and (entry == "UQ" or ([i for _, i in cb] == list(range(Ns))
-                                                   and all(np.array_equal(s, X[:, i]) for s, i in cb))))
+                                                   and all(np.array_equal(s, X[:, i]) for s, i in cb)
+                                                   and all(np.array_equal(np.asarray(k_), X[:, i]) for i, k_ in enumerate(kept)))))
         out["obs"] = "ok"
     except Exception as e:
         out["obs"] = err_kind(e)
@@ -1657,6 +1722,227 @@ def curvature_ok(meta, m, n, which, mu_min=0.5):
     return np.min(np.linalg.eigvalsh(H)) >= mu_min
 
 
+SIG_SPRIOR = "BayesianProblem.sample_prior|shallow-copy:original-likelihood-replaced"
+WITNESS_SPRIOR = {"op": "sprior", "prior": "LMRF", "lik": "Gaussian", "linear": True, "m": 3, "n": 3,
+                  "A": [[1, 2, 0], [0, 1, 1], [1, 0, -1]], "b": [1, -1, 0.5]}
+
+
+def case_life(cuqi, meta):
+    """the refusal clause in every life-cycle state of the Gaussians: fresh / after reads / after a refused call / after
+    compute_cov() / after an estimate / after re-assignment of the defining attribute"""
+    BP, A_eff, m, n, computed = build_problem(cuqi, meta)
+    key = meta["side"]
+    dist = BP.prior if key == "cx" else BP.likelihood.distribution
+    g = meta[key]
+    A = [[F(v) for v in row] for row in A_eff.tolist()]
+    exact, _, _ = posterior_exact(A, [F(v) for v in meta["b"]], full_x0(meta, n), intended_cov(meta["ce"], m), intended_cov(meta["cx"], n))
+    obs, fail = [], None
+    for op in meta["ops"]:
+        if op in (0, 1):                      # MAP / direct sampling (offset of a scripted zero draw)
+            try:
+                if op == 0:
+                    v = np.asarray(quiet(BP.MAP), dtype=float)
+                else:
+                    with ScriptedRandom(seed=1, script=lambda kind, a, k, idx: np.zeros(n) if kind == "randn" else None):
+                        v = np.array(quiet(BP.sample_posterior, 1).samples, dtype=float)[:, 0]
+                obs.append(0)
+                if fail is None and not close_v(v.tolist(), exact):
+                    fail = "step %d (%s): returned %s, the posterior mean is %s" % (len(obs), "MAP" if op == 0 else "direct draw with z=0", v, [float(e) for e in exact])
+            except NotImplementedError:
+                obs.append(1)
+            except Exception as e:
+                obs.append(1 if isinstance(e, NotImplementedError) else 2)
+        elif op == 2:                         # reads that must not change anything: logd, sample of the Gaussian, ML, posterior gradient probe
+            try:
+                dist_x = BP.prior
+                dist_x.logd(np.ones(n))
+                dist_x.sample(2)
+                BP.likelihood.logd(np.ones(n))
+                quiet(BP.ML)
+            except Exception:
+                pass
+            obs.append(2)
+        elif op == 3:
+            dist.compute_cov()
+            obs.append(2)
+        else:                                 # re-assign the defining attribute (same value): the cache must be dropped
+            setattr(dist, g["param"], np_cov_value(g))
+            obs.append(2)
+    expr = "check_life %s %s" % (clist([cnat(o) for o in meta["ops"]]), clist([cnat(o) for o in obs]))
+    return Case(expr=expr, meta=meta, cell="life/%s:%s/%s" % (key, g["param"], "-".join(str(o) for o in meta["ops"])), kind="DECISION",
+                impl_fail=fail, signature=SIG_OTHER if fail else "")
+
+
+def gen_life_metas(ctx):
+    rng = ctx.rng
+    out = []
+    seqs = [[0, 0, 1, 0], [2, 0, 2, 1, 0], [0, 3, 0, 1, 4, 0, 1], [3, 0, 2, 0, 4, 2, 0, 3, 0], [1, 2, 3, 1, 4, 4, 0], [0, 2, 1, 3, 0, 0, 4, 1, 3, 1]]
+    k = 0
+    for par in ("prec", "sqrtcov", "sqrtprec"):
+        for side in ("cx", "ce"):
+            for ops in seqs[(k % 2)::2]:
+                k += 1
+                m, n = [(2, 3), (3, 2), (3, 3)][k % 3]
+                c = dict(m=m, n=n, ke=["scalar", "vector", "diagm"][k % 3] if side == "ce" else "matrix", kx=["diagm", "scalar", "vector"][k % 3] if side == "cx" else "matrix",
+                         pe=par if side == "ce" else "cov", px=par if side == "cx" else "cov", model="dense", geom="default", mean="vec")
+                meta = instantiate(rng, c, "life")
+                meta.update(side=side, ops=ops)
+                out.append(meta)
+    return out
+
+
+def case_composite(cuqi, meta):
+    """MAP / ML / sampling on composite targets (several likelihoods; a joint with a hyper-parameter) against a plain posterior"""
+    D = cuqi.distribution
+    n = meta["n"]
+    A1, A2 = np.array(meta["A"], dtype=float), np.array(meta["A2"], dtype=float)
+    kind = meta["kind"]
+    if kind == 2:
+        d = D.Gamma(1, 1e-2)
+        x = D.Gaussian(np.zeros(n), lambda d: 1 / d)
+        d.name = "d"
+    else:
+        x = D.Gaussian(np.zeros(n), 2.0)
+    y1 = D.Gaussian(cuqi.model.LinearModel(A1) @ x, 0.5)
+    y2 = D.Gaussian(cuqi.model.LinearModel(A2) @ x, 1.0)
+    x.name, y1.name, y2.name = "x", "y1", "y2"
+    b1, b2 = np.array(meta["b"], dtype=float), np.array(meta["b2"], dtype=float)
+    if kind == 0:
+        BP = cuqi.problem.BayesianProblem(y1, x).set_data(y1=b1)
+    elif kind == 1:
+        BP = cuqi.problem.BayesianProblem(y1, y2, x).set_data(y1=b1, y2=b2)
+    else:
+        BP = cuqi.problem.BayesianProblem(y1, x, d).set_data(y1=b1)
+    res = {}
+    for nm in ("MAP", "ML"):
+        try:
+            v = np.asarray(quiet(getattr(BP, nm)), dtype=float)
+            res[nm] = v
+        except ValueError:
+            res[nm] = None
+    gibbs = {}
+    BPcls = cuqi.problem.BayesianProblem
+    for nm in ("sample_posterior", "UQ"):
+        taken = []
+        patches = {s_: (lambda self, *a, _s=s_, **k: taken.append(_s)) for s_ in SAMPLERS}
+        with _Patch(BPcls, **patches), _Patch(BPcls, _plot_UQ_for_variable=lambda self, *a, **k: None):
+            try:
+                quiet(getattr(BP, nm), 3)
+            except Exception:
+                pass
+        gibbs[nm] = taken[:1] == ["_sampleGibbs"]
+    fail = None
+    if kind == 1 and res["MAP"] is not None:
+        # a value for the two-likelihood problem must be the posterior mean for BOTH data sets
+        A = np.vstack([A1, A2])
+        Ce = np.diag([0.5] * len(b1) + [1.0] * len(b2))
+        ex, _, _ = posterior_exact([[F(v) for v in r] for r in A.tolist()], [F(v) for v in list(b1) + list(b2)], [Fraction(0)] * n,
+                                   [[F(v) for v in r] for r in Ce.tolist()], f_dense("scalar", 2.0, n))
+        if not close_v(res["MAP"].tolist(), ex):
+            fail = "MAP on a problem with two likelihoods returned %s; the posterior mean given both data sets is %s" % (res["MAP"], [float(v) for v in ex])
+    expr = "check_composite %s %s %s %s %s" % (cnat(kind), cbool(res["MAP"] is None), cbool(res["ML"] is None), cbool(gibbs["sample_posterior"]), cbool(gibbs["UQ"]))
+    return Case(expr=expr, meta=meta, cell="composite/%s" % ["posterior", "two-likelihoods", "joint-hyperparameter"][kind], kind="DECISION",
+                impl_fail=fail, signature=SIG_OTHER if fail else "")
+
+
+def gen_composite_metas(ctx):
+    rng = ctx.rng
+    out = []
+    for kind in (0, 1, 2):
+        for n in (2, 3):
+            out.append({"op": "composite", "kind": kind, "n": n, "A": gen_A(rng, 2, n), "A2": gen_A(rng, 3, n),
+                        "b": [dy(rng) for _ in range(2)], "b2": [dy(rng) for _ in range(3)]})
+    return out
+
+
+def sprior_observe(cuqi, meta):
+    BP = build_classes(cuqi, meta)
+    lik0, data0 = BP.likelihood, np.array(BP.data, dtype=float).copy()
+    m1 = np.asarray(quiet(BP.MAP), dtype=float)
+    try:
+        with ScriptedRandom(seed=5):
+            quiet(BP.sample_prior, 3)
+        st = "ok"
+    except Exception as e:
+        st = type(e).__name__
+    same_lik = BP.likelihood is lik0
+    try:
+        data_same = bool(np.array_equal(np.array(BP.data, dtype=float), data0))
+    except Exception:
+        data_same = False
+    try:
+        m2 = np.asarray(quiet(BP.MAP), dtype=float)
+        map_same = bool(np.array_equal(m1, m2))
+    except Exception as e:
+        m2, map_same = repr(e)[:80], False
+    return st, same_lik, data_same, map_same, m1, m2
+
+
+def case_sprior(cuqi, meta):
+    """sample_prior() is a read of the problem: afterwards the likelihood object, the data and the MAP estimate are the same"""
+    st, same_lik, data_same, map_same, m1, m2 = sprior_observe(cuqi, meta)
+    fail = None
+    if not (same_lik and data_same and map_same):
+        fail = "after sample_prior() (%s) the problem is another one: same likelihood object=%s, data unchanged=%s, MAP before %s, after %s" % (
+            st, same_lik, data_same, m1, m2)
+    expr = "%s && %s && %s" % (cbool(same_lik), cbool(data_same), cbool(map_same))
+    return Case(expr=expr, meta=meta, cell="sprior/%s/%s" % (meta["prior"], "square" if meta["m"] == meta["n"] else "over"), kind="DECISION",
+                impl_fail=fail, signature=SIG_SPRIOR if fail else "")
+
+
+def gen_sprior_metas(ctx):
+    rng = ctx.rng
+    out = [dict(WITNESS_SPRIOR)]
+    for prior in ("Gaussian", "GMRF", "LMRF", "CMRF", "Laplace", "Cauchy"):
+        for (m, n) in [(3, 3), (4, 3)]:
+            out.append({"op": "sprior", "prior": prior, "lik": "Gaussian", "linear": True, "m": m, "n": n, "A": gen_A(rng, m, n), "b": [dy(rng) for _ in range(m)]})
+    return out
+
+
+def case_sample1(cuqi, meta):
+    """exactly ONE draw on the direct route (z = 0): the array is n x 1 and the draw is the posterior mean"""
+    BP, A_eff, m, n, computed = build_problem(cuqi, meta)
+    try:
+        with ScriptedRandom(seed=1, script=lambda kind, a, k, idx: np.zeros(n) if kind == "randn" else None):
+            S = quiet(BP.sample_posterior, 1)
+        X = np.array(S.samples, dtype=float)
+        shape_ok = X.shape == (n, 1) and S.Ns == 1
+        obs = [float(v) for v in X.ravel()[:n]] if X.size >= n else "Other:shape"
+    except Exception as e:
+        obs, shape_ok = err_kind(e), True
+    fail = None
+    if not shape_ok:
+        fail = "one draw requested on the direct route: samples have shape %s" % (X.shape,)
+    elif not isinstance(obs, str):
+        ex, _, _ = posterior_exact([[F(v) for v in r] for r in A_eff.tolist()], [F(v) for v in meta["b"]], full_x0(meta, n),
+                                   intended_cov(meta["ce"], m), intended_cov(meta["cx"], n))
+        if not close_v(obs, ex):
+            fail = "the single direct draw with z = 0 is %s, the posterior mean %s" % (obs, [float(v) for v in ex])
+    expr = "check_map true %s %s %s %s %s %s %s %s && %s" % (cnat(m), cnat(n), cqmat(A_eff.tolist()), cqvec(meta["b"]), cqvec(model_x0(meta, n)),
+                                                          c_gdesc(meta["ce"], m), c_gdesc(meta["cx"], n), c_obs(obs), cbool(shape_ok))
+    return Case(expr=expr, meta=meta, cell="sample1/Ce:%s,Cx:%s/%dx%d" % (meta["ce"]["kind"], meta["cx"]["kind"], m, n), kind="EXACT",
+                impl_fail=fail, signature=SIG_SAMPLE if fail else "")
+
+
+def gen_sample1_metas(ctx):
+    rng = ctx.rng
+    out = []
+    for ke, kx in [("matrix", "matrix"), ("scalar", "vector"), ("vector", "scalar")]:
+        for (m, n) in [(2, 3), (3, 2), (1, 1), (3, 3)]:
+            c = dict(m=m, n=n, ke=ke if m > 1 else "scalar", kx=kx if n > 1 else "scalar", pe="cov", px="cov", model="dense", geom="default", mean="vec")
+            out.append(instantiate(rng, c, "sample1"))
+    return out
+
+
+def ensure_curvature(meta, m, n, which):
+    """make the Hessian's smallest eigenvalue >= 0.5 by doubling the model matrix (dyadic, keeps every value exact)"""
+    for _ in range(5):
+        if curvature_ok(meta, m, n, which):
+            return True
+        meta["A"] = (np.array(meta["A"], dtype=float) * 2).tolist()
+    return curvature_ok(meta, m, n, which)
+
+
 class _SolverSpy:
     """wraps cuqi.solver.minimize / L_BFGS_B by recording subclasses (the real optimisers still run)"""
     def __init__(self, cuqi):
@@ -1713,7 +1999,7 @@ def case_ml(cuqi, meta):
             exc = None
         except Exception as e:
             r, exc = None, e
-    linear = meta["model"] != "general"
+    linear = meta["model"] not in ("general", "general_buf")
     P = "(mk_pinfo %s %s %s %s %s %s)" % (cnat(0), cnat(0), cbool(linear), cnat(m), cnat(n), cbool(True))
     cell = "ml/%s-%s%s/Ce:%s%s/%s/x0:%s" % (meta["model"], meta.get("geom", "default"), "/mds" if meta["ce"].get("mds") is not None else "",
                                        meta["ce"].get("structure", meta["ce"]["kind"]) + (":const" if meta.get("constvec") else ""),
@@ -1780,7 +2066,7 @@ def gen_ml_metas(ctx):
     noise = [("scalar", "cov"), ("vec1", "cov"), ("constvec", "cov"), ("vector", "cov"), ("diagm", "cov"), ("matrix", "cov"), ("sparsed", "cov"),
              ("scalar", "prec"), ("vector", "prec"), ("matrix", "prec"), ("scalar", "sqrtcov"), ("vector", "sqrtcov"), ("diagm", "sqrtcov"),
              ("scalar", "sqrtprec"), ("vector", "sqrtprec"), ("diagm", "sqrtprec")]
-    forms = ["dense", "func", "sparse", "general"]
+    forms = ["dense", "func", "sparse", "general", "general_buf", "func_strided"]
     k = 0
     for ke, pe in noise:
         for (m, n) in shapes:
@@ -1788,11 +2074,11 @@ def gen_ml_metas(ctx):
                 continue
             for rep in range(ctx.n(1, 3)):
                 k += 1
-                form = forms[k % 4] if pe == "cov" else forms[k % 2]
+                form = forms[k % 6] if pe == "cov" else forms[k % 2]
                 c = dict(m=m, n=n, ke="vector" if ke == "constvec" else ("diagm" if ke == "sparsed" else ke), kx="scalar", pe=pe, px="cov", model=form, geom="default", mean="vec")
                 for attempt in range(200):
                     meta = instantiate(rng, c, op="ml")
-                    if curvature_ok(meta, m, n, "ML"):
+                    if ensure_curvature(meta, m, n, "ML"):
                         break
                 if ke == "constvec":
                     meta["ce"]["val"] = [meta["ce"]["val"][0]] * m
@@ -1820,9 +2106,9 @@ def gen_ml_metas(ctx):
             for (m, n) in [(3, 2), (3, 3), (4, 3)]:
                 k += 1
                 c = dict(m=m, n=n, ke=ke, kx="scalar", pe="cov", px="cov", model=form, geom=geom, mean="vec")
-                for attempt in range(4000):
+                for attempt in range(40):
                     meta = instantiate(rng, c, op="ml")
-                    if curvature_ok(meta, m, n, "ML"):
+                    if ensure_curvature(meta, m, n, "ML"):
                         break
                 else:
                     continue
@@ -1835,9 +2121,9 @@ def gen_ml_metas(ctx):
                 for (m, n) in [(4, 3), (5, 2), (6, 3)]:
                     k += 1
                     c = dict(m=m, n=n, ke=ke, kx="scalar", pe=pe, px="cov", model=forms[k % 4], geom="default", mean="vec")
-                    for attempt in range(4000):
+                    for attempt in range(40):
                         meta = instantiate(rng, c, op="ml")
-                        if curvature_ok(meta, m, n, "ML"):
+                        if ensure_curvature(meta, m, n, "ML"):
                             break
                     else:
                         continue
@@ -1916,6 +2202,8 @@ def dispatch(cuqi, meta, fixed, cell=""):
         return case_ccov(cuqi, meta)
     if op == "sprec":
         return case_sprec(cuqi, meta)
+    if op in ("life", "composite", "sprior", "sample1"):
+        return {"life": case_life, "composite": case_composite, "sprior": case_sprior, "sample1": case_sample1}[op](cuqi, meta)
     raise ValueError(op)
 
 
@@ -2010,7 +2298,7 @@ def gen_opt_metas(ctx):
                     c = dict(m=m, n=n, ke=ke, kx=kx, pe="cov", px="cov", model="general" if force == "general" else "dense", geom="default", mean="vec")
                     for attempt in range(200):
                         meta = instantiate(rng, c, op="opt")
-                        if curvature_ok(meta, m, n, which):
+                        if ensure_curvature(meta, m, n, which):
                             break
                     meta.update(which=which, force=force, m=m, n=n, x0=[dy(rng, -2, 2) for _ in range(n)] if len(out) % 2 == 0 else None,
                                 x0_style=["ndarray", "list", "cuqiarray"][len(out) % 3])
@@ -2027,9 +2315,9 @@ def gen_opt_struct_metas(ctx):
             for mds in (None, 1):
                 m, n = [(4, 4), (5, 4)][len(out) % 2]
                 c = dict(m=m, n=n, ke=ke, kx=kx, pe=pe, px=px, model="general", geom="default", mean="vec")
-                for attempt in range(4000):
+                for attempt in range(40):
                     meta = instantiate(rng, c, op="opt")
-                    if curvature_ok(meta, m, n, "MAP"):
+                    if ensure_curvature(meta, m, n, "MAP"):
                         break
                 else:
                     continue
@@ -2086,6 +2374,17 @@ def gen_sprec_metas(ctx):
                 if mds is not None:
                     g["mds"] = mds
                 out.append({"op": "sprec", "dim": d, "g": g})
+    # integer dtype through the reciprocal / inverse maps: integer-valued prec, sqrtprec, sqrtcov and cov given as int64 arrays
+    for par in PARAMS:
+        for kind in ("vector", "diagm", "matrix"):
+            for d in (2, 3):
+                g = gen_cov(rng, kind, d, par)
+                g["val"] = (np.array(g["val"]) * 4).tolist()
+                if par in ("sqrtcov", "sqrtprec") and kind == "matrix":
+                    g = {"param": par, "kind": "matrix", "val": (np.array(gen_factor(rng, d, "general")) * 2).tolist(), "factor": "general"}
+                g["int"] = True
+                out.append({"op": "sprec", "dim": d, "g": g})
+                out.append({"op": "ccov", "dim": d, "g": dict(g)})
     if ctx.thorough:      # the real threshold: dims 75 / 76 / 77 with block structure (exact Fraction inverse of the blocks)
         for par in ("cov", "prec"):
             for d in (75, 76, 77):
@@ -2165,7 +2464,8 @@ def run(ctx):
     # optional arguments of the direct sampling route (Nb is documented as unused there; experimental must not change it) and UQ
     base = dict(pe="cov", px="cov", model="dense", geom="default", mean="vec")
     for i, sargs in enumerate([{"Nb": 0}, {"Nb": 2}, {"experimental": True}, {"Nb": 1, "experimental": True},
-                               {"entry": "UQ"}, {"entry": "UQ", "Nb": 1, "percent": 90}, {"entry": "UQ", "experimental": True, "exact": "zeros"}]):
+                               {"entry": "UQ"}, {"entry": "UQ", "Nb": 1, "percent": 90}, {"entry": "UQ", "experimental": True, "exact": "zeros"},
+                               {"entry": "UQ", "defaults": True}]):
         for (ke, kx, m, n) in [("matrix", "matrix", 2, 3), ("vector", "scalar", 3, 2)]:
             c = dict(base, m=m, n=n, ke=ke, kx=kx)
             meta = instantiate(rng, c, "sample")
@@ -2188,6 +2488,9 @@ def run(ctx):
         cases.append(safe(case_ccov, cuqi, meta))
     for meta in gen_sprec_metas(ctx):
         cases.append(safe(case_sprec, cuqi, meta))
+    for gen, fn in ((gen_life_metas, case_life), (gen_composite_metas, case_composite), (gen_sprior_metas, case_sprior), (gen_sample1_metas, case_sample1)):
+        for meta in gen(ctx):
+            cases.append(safe(fn, cuqi, meta))
     for meta in gen_opt_struct_metas(ctx):
         cases.append(safe(case_opt, cuqi, meta))
     for meta in gen_ml_metas(ctx):
@@ -2221,7 +2524,7 @@ def classify(meta, detail):
         return classify_map(meta, len(A), len(A[0]))
     if op == "sample" and meta.get("geom") in NONID:
         return SIG_NONLIN if meta.get("geom") == "mapped_sq" else SIG_GEOM
-    return {"sample": SIG_SAMPLE, "route": SIG_ROUTE, "cascade": SIG_ROUTE, "handover": SIG_ROUTE, "setup": SIG_SETUP, "opt": SIG_OPT, "optng": SIG_OPT, "optns": SIG_NONSMOOTH, "ml": SIG_ML, "ccov": SIG_CCOV, "sprec": SIG_CCOV}.get(op, "C15")
+    return {"sample": SIG_SAMPLE, "route": SIG_ROUTE, "cascade": SIG_ROUTE, "handover": SIG_ROUTE, "setup": SIG_SETUP, "opt": SIG_OPT, "optng": SIG_OPT, "optns": SIG_NONSMOOTH, "ml": SIG_ML, "ccov": SIG_CCOV, "sprec": SIG_CCOV, "sprior": SIG_SPRIOR, "sample1": SIG_SAMPLE, "life": SIG_OTHER, "composite": SIG_OTHER}.get(op, "C15")
 
 
 def search(ctx):
@@ -2244,7 +2547,7 @@ def replay(ctx, meta):
     print(json.dumps(meta, indent=1, default=str)[:6000])
     m = meta.get("meta", meta)
     if "witness" in m:
-        m = {SIG_NOISE: WITNESS_NOISE, SIG_PRIOR: WITNESS_PRIOR, SIG_GEOM: WITNESS_GEOM, SIG_NONLIN: WITNESS_NONLIN}.get(m["witness"], WITNESS_NONSMOOTH)
+        m = {SIG_NOISE: WITNESS_NOISE, SIG_PRIOR: WITNESS_PRIOR, SIG_GEOM: WITNESS_GEOM, SIG_NONLIN: WITNESS_NONLIN, SIG_SPRIOR: WITNESS_SPRIOR}.get(m["witness"], WITNESS_NONSMOOTH)
     bad_noise, _, _, _ = probe_fixed(cuqi)
     fixed = not bad_noise
     GEOM_FIXED[0] = probe_geom_fixed(cuqi)
